@@ -763,10 +763,10 @@ func (x Expr) Get(data any) (results []any) {
 				if len(tv) <= start {
 					continue
 				}
+				if len(tv) < end {
+					end = len(tv)
+				}
 				if 0 < step {
-					if len(tv) < end {
-						end = len(tv)
-					}
 					if int(fi) == len(x)-1 { // last one
 						for i := start; i < end; i += step {
 							results = append(results, tv[i])
